@@ -4,7 +4,7 @@
     say that for every chunking the result is the sequential result.  Only pinned statements, each
     closed by [exact]. *)
 From Coq Require Import List ZArith Bool Permutation Sorted.
-From VibeSQL Require Import Sem.Syntax Sem.Rel Mech.Join Mech.Accumulator Mech.Parallel Mech.ParallelLaws.
+From VibeSQL Require Import Sem.Syntax Sem.Rel Sem.OrderLaws Mech.Join Mech.Accumulator Mech.Parallel Mech.ParallelLaws.
 Import ListNotations.
 Open Scope Z_scope.
 
@@ -36,6 +36,11 @@ Theorem C04_par_sort : forall (le : row -> row -> bool),
   Sorted (fun u v => le u v = true) (par_sort le chunks) /\ Permutation (concat chunks) (par_sort le chunks).
 Proof. exact par_sort_sorted_perm. Qed.
 Print Assumptions C04_par_sort.
+
+Theorem C04_par_sort_same_keys : forall (ks : list (nat * bool)) (chunks : list (list row)),
+  map (keyvec ks) (par_sort (row_le ks) chunks) = map (keyvec ks) (sort_rows (row_le ks) (concat chunks)).
+Proof. exact par_sort_same_keys. Qed.
+Print Assumptions C04_par_sort_same_keys.
 
 (** partitioned hash-table build: every probe sees the bucket of the sequential build, in order *)
 Theorem C04_par_hash_build : forall (kr : row -> value) (k : value) (chunks : list (list row)),
